@@ -17,27 +17,27 @@ COMMON_NOTE = (
 P = {
     "C01": ("proof", "Contracts on parse_uri/compress/is_uri (+format_curie) are proved for all converters satisfying the representation invariant WF and all strings from the current source; "
             "order independence is lemma C01.order_independent over those contracts (two converters with the same set-level view give the same answer). "
-            "The link 'any construction/insertion order yields the same view' is carried by the contracts of __init__/add_record (C04/C05 cone), which are bounded stand-ins until proved.",
+            "The link 'any construction/insertion order yields the same view' is carried by the contracts of __init__/add_record (C04/C05 cone), which are proved as well (see the item list).",
             "assumed contract of pytrie.StringTrie.longest_prefix_item (longest stored key that is a prefix; KeyError iff none)."),
     "C02": ("proof", "Every function of the CURIE side (_split, parse_curie, standardize_prefix, get_record, expand*, expand_pair_all loop with invariant) is proved against a contract taken from the statement, incl. the empty prefix, multi-character delimiters, no-result cases.", ""),
     "C03": ("proof", "Five lemmas over the proved contracts of compress/expand/expand_all/standardize_uri/standardize_curie: lossless, canonical fixed point, expand output compressible, inverse bijection on prefix-free maps. Hypothesis: every CURIE prefix p satisfies first_occ(p, delimiter) (for one-character delimiters: p does not contain it).", ""),
-    "C04": ("other", "Contracts for __init__, the duplicate detectors, the four index builders and bimap/reverse_bimap are stated; those the engine cannot yet discharge are decided by the bounded stand-in (record collections with clashes of every kind, all loaders).",
-            "pydantic validator wiring; sorted() is a stable permutation."),
-    "C05": ("other", "Contracts for _eq/_in (proved), _match_record, _merge, _index, add_record, add_prefix incl. exceptional frame (rejected call changes nothing) and 'answers as a fresh converter'; heap-mutating functions are bounded stand-ins until proved; histories by the representation invariant WF (contract post of add_record) plus a bounded interleaved history lemma.", ""),
+    "C04": ("other", "Contracts for __init__ (raises iff clash, URI clashes first), the duplicate detectors, the four index builders, bimap/reverse_bimap (inverse-bijection lemma), the two field validators of Record (the constructor model takes its rejection condition from their proved contracts) and the in-memory loaders are proved; pydantic wiring and the loaders over files/rdflib are bounded lemmas.",
+            "pydantic runs the validators at construction in field order and stores the returned value; sorted() is a permutation ordered by key."),
+    "C05": ("other", "Contracts for _eq/_in (proved), _match_record, _merge, _index, add_record, add_prefix incl. exceptional frame (rejected call changes nothing) and 'answers as a fresh converter'; all proved, incl. the heap-mutating ones; histories follow from the representation invariant WF (pre- and postcondition of add_record/add_prefix), additionally exercised by a bounded interleaved history lemma.", ""),
     "C06": ("proof", "standardize_prefix/standardize_curie/standardize_uri proved against statement-level contracts; idempotence and meaning preservation are three lemmas over those contracts.", ""),
     "C07": ("proof", "parse, is_uri, is_curie, compress_or_standardize, expand_or_standardize, format_curie, *_strict proved; the agreement statements are five lemmas over the contracts (URI precedence included).", ""),
     "C08": ("proof", "All 14 functions proved with symbolic strict/passthrough flags: value/None/raise schema and the exceptional-exit obligations (every raise is admitted by a raises-clause whose condition holds; every partial operation has a discharged safety obligation).", ""),
-    "C09": ("other", "Contracts for chain and get_subconverter (union, grouping, priority, case-insensitive separation, restriction, delimiter) — bounded stand-ins until the heap/frame encoding reaches them; _eq/_in proved.", ""),
+    "C09": ("other", "Contracts for chain and get_subconverter (union, grouping, priority, case-insensitive separation, restriction, delimiter) — get_subconverter, _match_record, _merge, _index, add_record are proved; chain is partially discharged (open obligations listed in the evidence) and decided by the bounded stand-in.", ""),
     "C10": ("other", "Frame conditions (input converter state unchanged, result shares no record object) are postconditions of the six derivations; discover's purity wrt. its converter; two bounded history lemmas for 'later modification does not leak'.", ""),
     "C11": ("other", "Contracts for _order_curie_remapping and remap_curie_prefixes taken from the statement (record count, URI side untouched, nothing forgotten, applicable pairs rename, clashes skipped).", ""),
     "C12": ("other", "Contracts for remap_uri_prefixes, rewire and the two key-selection helpers; idempotence/unknown-prefix lemmas bounded.", ""),
-    "C13": ("other", "upgrade_prefix_map contract; each loader's denotation as a lemma over the real constructors (bounded); file/URL/rdflib clauses rest on json/rdflib (assumed).", "json.load/dump inverse; rdflib namespaces()."),
-    "C14": ("other", "_record_to_dict and _get_jsonld_context contracts; round trips through json/csv/rdflib/files are bounded lemmas over the real writers/loaders.", "json, csv, rdflib Turtle+SPARQL, file system."),
-    "C15": ("other", "_split / ReferenceTuple.from_curie proved (print/parse inverse lemma C15.print_parse proved); pydantic classes (eq/hash/lt/frozen/context validation/JSON) and the triples TSV are bounded lemmas.", "pydantic model machinery; csv."),
+    "C13": ("other", "Level capped at 'other' (rdflib, files, dictionary-valued JSON-LD terms are bounded only). Proved for every in-memory input: from_prefix_map, from_priority_prefix_map, from_reverse_prefix_map, from_extended_prefix_map (Record objects), from_jsonld (string-valued terms), upgrade_prefix_map, and lemma 'upgrade_prefix_map output is always accepted by a strict converter and denotes the map'; the remaining clauses (file/URL/rdflib, dict-valued terms, Record(**dict)) are bounded lemmas over the real constructors.", "json.load/dump inverse; rdflib namespaces(); _prepare(obj) returns obj for in-memory objects (final else-branch checked syntactically)."),
+    "C14": ("other", "Level capped at 'other'. Proved: _get_expanded_term/_get_jsonld_context (plain form) and the in-memory round trip lemma through from_jsonld; _record_to_dict and the round trips through json/csv/rdflib/files are bounded lemmas over the real writers/loaders.", "json, csv, rdflib Turtle+SPARQL, file system."),
+    "C15": ("other", "Level capped at 'other': the pydantic reference classes are decided by bounded lemmas only. _split / ReferenceTuple.from_curie proved (print/parse inverse lemma C15.print_parse proved); pydantic classes (eq/hash/lt/frozen/context validation/JSON) and the triples TSV are bounded lemmas.", "pydantic model machinery; csv."),
     "C16": ("other", "Element-wise equality with the scalar calls and byte-level atomicity on failure are lemmas over the real pd_*/file_* methods (bounded: pandas/csv/files are third-party).", "pandas Series.map; csv; file system."),
     "C18": ("other", "handle_header/_handle_part against an RFC 7231 reading of the statement, _expand_pair_all against 'valid members of expand_all(compress(u))', triples dispatch and an end-to-end Flask/SPARQL lemma (bounded). FastAPI path is not exercised offline by the baseline either.", "rdflib SPARQL engine and _is_valid_uri; Flask; custom join-reordering in rdflib_custom.py is NOT covered except through the end-to-end bounded lemma."),
     "C19": ("other", "Contracts for _get_uri_prefix_to_luids and discover stated over membership in the URI collection (order/repetition independence is then immediate); valid strict result, naming, cutoff, round trip; known finding D10 (GitHub issue URIs skipped).", "str.isalnum, str.rsplit."),
-    "C20": ("other", "is_w3c_prefix / _is_w3c_luid / is_w3c_curie against the grammar of the statement; exhaustive over a 15-symbol representative alphabet up to length 3 (quick) / 4 (thorough) plus random longer strings until the regular-language layer proves it.", "Python re."),
+    "C20": ("other", "is_w3c_prefix / _is_w3c_luid / is_w3c_curie against the grammar of the statement; proved for all strings (no length bound) by the regular-language layer: the function body and the specification are folded into one regular language each and the emptiness of their symmetric difference is decided by z3 5.1.0.", "Python re implements the translated regular language; the whitespace class is enumerated from the running interpreter."),
 }
 
 SECTION = {k: "§4 " + k for k in P}
